@@ -262,6 +262,45 @@ func c13ListCase(r *mon.Run, lc listCase, c mon.Case) {
 				r.Violate("stale-nullness", c, "%s: after a first render, %d of the null statements were given a token; the second render differs from a fresh build of the same final tree\n--- second render ---\n%s\n--- fresh build ---\n%s", desc(), len(held), second, want)
 			}
 			r.Count("two_phase_cases", 1)
+			// the same with Statement.RenderWithFile into one File (fragments rendered with a File never reset it)
+			if cname := k.name; cname == "List" || cname == "Union" || cname == "Types" || cname == "Custom(bare|)" || cname == "Add" || cname == "Stmt.List" {
+				var held2 []*jen.Statement
+				var items2, fresh2 []jen.Code
+				for g := 0; g <= lc.Arity; g++ {
+					if lc.Nulls[g] >= 0 {
+						st := jen.Null()
+						held2 = append(held2, st)
+						items2 = append(items2, st)
+						fresh2 = append(fresh2, jen.Null().Id(fmt.Sprintf("late%dq", len(held2))))
+					}
+					if g < lc.Arity {
+						items2 = append(items2, jen.Id(fmt.Sprintf("x%dq", g+1)))
+						fresh2 = append(fresh2, jen.Id(fmt.Sprintf("x%dq", g+1)))
+					}
+				}
+				host := func(inner *jen.Statement) *jen.Statement {
+					return jen.Var().Id("v").Op("=").Id("f").Call(inner, jen.Id("endq"))
+				}
+				tree2 := host(k.mk(items2...))
+				shared := jen.NewFile("p")
+				rw := func(st *jen.Statement, f *jen.File) string {
+					buf := &bytes.Buffer{}
+					if err := st.RenderWithFile(buf, f); err != nil {
+						return "error: " + mon.Trunc(err.Error(), 120)
+					}
+					return buf.String()
+				}
+				before := rw(tree2, shared)
+				for i, st := range held2 {
+					st.Id(fmt.Sprintf("late%dq", i+1))
+				}
+				after := rw(tree2, shared)
+				want2 := rw(host(k.mk(fresh2...)), jen.NewFile("p"))
+				if !strings.HasPrefix(before, "error") && !strings.HasPrefix(want2, "error") && after != want2 {
+					r.Violate("stale-nullness", c, "%s: rendered with RenderWithFile into one File before and after %d null statements were given a token; the second rendering differs from a fresh build rendered with a fresh File\n--- second ---\n%s\n--- fresh ---\n%s", desc(), len(held2), after, want2)
+				}
+				r.Count("two_phase_cases_renderwithfile", 1)
+			}
 		}
 	}
 	if r.Verbose {
